@@ -887,7 +887,8 @@ def check_declarations(ctx: Ctx, files: List[str]):
             if cf is None:
                 continue  # removal of a field is the business of the field-flow rules
             line = models.field_map(ci)[fname].node.lineno
-            opaque_ = [x_ for x_ in cf["meta"] if x_ not in rf["meta"] and x_.split("(")[0].split(".")[-1] in ("AfterValidator", "BeforeValidator", "PlainValidator", "WrapValidator")]
+            opaque_ = [x_ for x_ in cf["meta"] if x_ not in rf["meta"] and x_.split("(")[0].split(".")[-1] in ("AfterValidator", "BeforeValidator", "PlainValidator", "WrapValidator")
+                       and not x_.split("(", 1)[1].lstrip().startswith("lambda")]  # (a lambda written in place is readable: compared as a difference)
             if cf["shape"] == rf["shape"] and opaque_ and [x_ for x_ in cf["meta"] if x_ not in opaque_] == rf["meta"]:
                 # the only difference: validators hung on the annotation as the result of a call (`AfterValidator(_validator(_check))`):
                 # whether they leave the accepted values alone is the acceptance rules' business, and they cannot read them either
